@@ -94,137 +94,180 @@ theorem buildHash_noof : ∀ (fuel : Nat) (xs : List Value) (acc : List HPair) (
     · split at h <;> (cases h; simp [NotOof])
     · exact buildHash_noof n _ _ _ h
 
+theorem failE_failed {y e : Err} {env env' : Env} {o1 o : Str} (h : failE y env o1 = .failed e env' o) : y = e := by
+  unfold failE at h
+  split at h
+  · cases h
+  · cases h; rfl
+
+/-- a failure of the statement semantics that stems from an expression is never the marker -/
+theorem failE_noof {y e : Err} {env env' : Env} {o1 o : Str} (h : failE y env o1 = .failed e env' o) : NotOof e := by
+  unfold failE at h
+  split at h
+  · cases h
+  · rename_i hne
+    cases h
+    exact hne
+
+mutual
+  /-- no call inside (the value-producing fragment before calls were added) -/
+  def callFree : Expr → Bool
+    | .call _ _ => false
+    | .prefix _ r => callFree r
+    | .infix _ l r => callFree l && callFree r
+    | .index l i => callFree l && callFree i
+    | .arrayLit els => callFreeEs els
+    | .ternary c t f => callFree c && callFree t && callFree f
+    | .hashLit ps => callFreePs ps
+    | _ => true
+  def callFreeEs : List Expr → Bool
+    | [] => true
+    | e :: es => callFree e && callFreeEs es
+  def callFreePs : List Pair → Bool
+    | [] => true
+    | .mk k v :: ps => callFree k && callFree v && callFreePs ps
+end
+
 mutual
   theorem evalE_noof (M : Machine) (obj : HostVal) (env : Env) : ∀ (x : Expr) (out : Str) (e : Err) (o : Str),
-      evalE M obj env x out = (.error e, o) → NotOof e
-    | .boolLit b, out, e, o, h => by simp [evalE] at h
-    | .intLit _ v, out, e, o, h => by
+      callFree x = true → evalE M obj env x out = (.error e, o) → NotOof e
+    | .boolLit b, out, e, o, hcf, h => by simp [evalE] at h
+    | .intLit _ v, out, e, o, hcf, h => by
       simp only [evalE] at h
       split at h
       · simp at h
       · simp only [Prod.mk.injEq] at h; exact poolVal_noof h.1
-    | .floatLit _ f, out, e, o, h => by simp only [evalE, Prod.mk.injEq] at h; exact poolVal_noof h.1
-    | .strLit s, out, e, o, h => by simp only [evalE, Prod.mk.injEq] at h; exact poolVal_noof h.1
-    | .regexpLit _ val flags, out, e, o, h => by simp only [evalE, Prod.mk.injEq] at h; exact poolVal_noof h.1
-    | .ident name, out, e, o, h => by
+    | .floatLit _ f, out, e, o, hcf, h => by simp only [evalE, Prod.mk.injEq] at h; exact poolVal_noof h.1
+    | .strLit s, out, e, o, hcf, h => by simp only [evalE, Prod.mk.injEq] at h; exact poolVal_noof h.1
+    | .regexpLit _ val flags, out, e, o, hcf, h => by simp only [evalE, Prod.mk.injEq] at h; exact poolVal_noof h.1
+    | .ident name, out, e, o, hcf, h => by
       simp only [evalE, Prod.mk.injEq] at h
       cases hp : poolVal M.consts (.str name) with
       | ok c => simp only [hp] at h; exact lookup_noof h.1
       | error x => simp only [hp] at h; cases h.1; exact poolVal_noof hp
-    | .prefix op r, out, e, o, h => by
+    | .prefix op r, out, e, o, hcf, h => by
       simp only [evalE] at h
       cases hr : evalE M obj env r out with
       | mk res o1 =>
         cases res with
         | ok v => simp only [hr, Prod.mk.injEq] at h; exact applyPrefix_noof h.1
-        | error x => simp only [hr, Prod.mk.injEq, Except.error.injEq] at h; rw [← h.1]; exact evalE_noof M obj env r out x o1 hr
-    | .infix op l r, out, e, o, h => by
+        | error x => simp only [hr, Prod.mk.injEq, Except.error.injEq] at h; rw [← h.1]; exact evalE_noof M obj env r out x o1 (by simp only [callFree, callFreeEs, callFreePs, Bool.and_eq_true] at hcf; simp [hcf]) hr
+    | .infix op l r, out, e, o, hcf, h => by
       simp only [evalE] at h
       cases hl : evalE M obj env l out with
       | mk res o1 =>
         cases res with
-        | error x => simp only [hl, Prod.mk.injEq, Except.error.injEq] at h; rw [← h.1]; exact evalE_noof M obj env l out x o1 hl
+        | error x => simp only [hl, Prod.mk.injEq, Except.error.injEq] at h; rw [← h.1]; exact evalE_noof M obj env l out x o1 (by simp only [callFree, callFreeEs, callFreePs, Bool.and_eq_true] at hcf; simp [hcf]) hl
         | ok lv =>
           simp only [hl] at h
           cases hr : evalE M obj env r o1 with
           | mk res2 o2 =>
             cases res2 with
-            | error x => simp only [hr, Prod.mk.injEq, Except.error.injEq] at h; rw [← h.1]; exact evalE_noof M obj env r o1 x o2 hr
+            | error x => simp only [hr, Prod.mk.injEq, Except.error.injEq] at h; rw [← h.1]; exact evalE_noof M obj env r o1 x o2 (by simp only [callFree, callFreeEs, callFreePs, Bool.and_eq_true] at hcf; simp [hcf]) hr
             | ok rv =>
               simp only [hr] at h
               cases ha : applyInfix M op lv rv with
               | ok p => simp [ha] at h
               | error x => simp only [ha, Prod.mk.injEq, Except.error.injEq] at h; rw [← h.1]; exact applyInfix_noof ha
-    | .index l i, out, e, o, h => by
+    | .index l i, out, e, o, hcf, h => by
       simp only [evalE] at h
       cases hl : evalE M obj env l out with
       | mk res o1 =>
         cases res with
-        | error x => simp only [hl, Prod.mk.injEq, Except.error.injEq] at h; rw [← h.1]; exact evalE_noof M obj env l out x o1 hl
+        | error x => simp only [hl, Prod.mk.injEq, Except.error.injEq] at h; rw [← h.1]; exact evalE_noof M obj env l out x o1 (by simp only [callFree, callFreeEs, callFreePs, Bool.and_eq_true] at hcf; simp [hcf]) hl
         | ok lv =>
           simp only [hl] at h
           cases hr : evalE M obj env i o1 with
           | mk res2 o2 =>
             cases res2 with
-            | error x => simp only [hr, Prod.mk.injEq, Except.error.injEq] at h; rw [← h.1]; exact evalE_noof M obj env i o1 x o2 hr
+            | error x => simp only [hr, Prod.mk.injEq, Except.error.injEq] at h; rw [← h.1]; exact evalE_noof M obj env i o1 x o2 (by simp only [callFree, callFreeEs, callFreePs, Bool.and_eq_true] at hcf; simp [hcf]) hr
             | ok iv => simp only [hr, Prod.mk.injEq] at h; exact indexOp_noof h.1
-    | .arrayLit els, out, e, o, h => by
+    | .arrayLit els, out, e, o, hcf, h => by
       simp only [evalE] at h
       cases hl : evalEs M obj env els out with
       | mk res o1 =>
         cases res with
         | ok vs => simp [hl] at h
-        | error x => simp only [hl, Prod.mk.injEq, Except.error.injEq] at h; rw [← h.1]; exact evalEs_noof M obj env els out x o1 hl
-    | .ternary c t f, out, e, o, h => by
+        | error x => simp only [hl, Prod.mk.injEq, Except.error.injEq] at h; rw [← h.1]; exact evalEs_noof M obj env els out x o1 (by simp only [callFree, callFreeEs, callFreePs, Bool.and_eq_true] at hcf; simp [hcf]) hl
+    | .ternary c t f, out, e, o, hcf, h => by
       simp only [evalE] at h
       cases hc : evalE M obj env c out with
       | mk res o1 =>
         cases res with
-        | error x => simp only [hc, Prod.mk.injEq, Except.error.injEq] at h; rw [← h.1]; exact evalE_noof M obj env c out x o1 hc
+        | error x => simp only [hc, Prod.mk.injEq, Except.error.injEq] at h; rw [← h.1]; exact evalE_noof M obj env c out x o1 (by simp only [callFree, callFreeEs, callFreePs, Bool.and_eq_true] at hcf; simp [hcf]) hc
         | ok cv =>
           simp only [hc] at h
           split at h
-          · exact evalE_noof M obj env t o1 e o h
-          · exact evalE_noof M obj env f o1 e o h
-    | .hashLit ps, out, e, o, h => by
+          · exact evalE_noof M obj env t o1 e o (by simp only [callFree, callFreeEs, callFreePs, Bool.and_eq_true] at hcf; simp [hcf]) h
+          · exact evalE_noof M obj env f o1 e o (by simp only [callFree, callFreeEs, callFreePs, Bool.and_eq_true] at hcf; simp [hcf]) h
+    | .hashLit ps, out, e, o, hcf, h => by
       simp only [evalE] at h
       cases hl : evalPs M obj env ps out with
       | mk res o1 =>
         cases res with
-        | error x => simp only [hl, Prod.mk.injEq, Except.error.injEq] at h; rw [← h.1]; exact evalPs_noof M obj env ps out x o1 hl
+        | error x => simp only [hl, Prod.mk.injEq, Except.error.injEq] at h; rw [← h.1]; exact evalPs_noof M obj env ps out x o1 (by simp only [callFree, callFreeEs, callFreePs, Bool.and_eq_true] at hcf; simp [hcf]) hl
         | ok kvs =>
           simp only [hl] at h
           cases hb : buildHash (kvs.length + 1) kvs.reverse [] with
           | ok hp => simp [hb] at h
           | error x => simp only [hb, Prod.mk.injEq, Except.error.injEq] at h; rw [← h.1]; exact buildHash_noof _ _ _ _ hb
-    | .postfix _ _, out, e, o, h => by simp only [evalE, Prod.mk.injEq, Except.error.injEq] at h; rw [← h.1]; simp [NotOof]
-    | .call _ _, out, e, o, h => by simp only [evalE, Prod.mk.injEq, Except.error.injEq] at h; rw [← h.1]; simp [NotOof]
-    | .assign _ _, out, e, o, h => by simp only [evalE, Prod.mk.injEq, Except.error.injEq] at h; rw [← h.1]; simp [NotOof]
-    | .ifE _ _ _, out, e, o, h => by simp only [evalE, Prod.mk.injEq, Except.error.injEq] at h; rw [← h.1]; simp [NotOof]
-    | .whileE _ _, out, e, o, h => by simp only [evalE, Prod.mk.injEq, Except.error.injEq] at h; rw [← h.1]; simp [NotOof]
-    | .foreachE _ _ _ _, out, e, o, h => by simp only [evalE, Prod.mk.injEq, Except.error.injEq] at h; rw [← h.1]; simp [NotOof]
-    | .switchE _ _, out, e, o, h => by simp only [evalE, Prod.mk.injEq, Except.error.injEq] at h; rw [← h.1]; simp [NotOof]
-    | .funcDef _ _ _, out, e, o, h => by simp only [evalE, Prod.mk.injEq, Except.error.injEq] at h; rw [← h.1]; simp [NotOof]
-    | .localE _, out, e, o, h => by simp only [evalE, Prod.mk.injEq, Except.error.injEq] at h; rw [← h.1]; simp [NotOof]
+    | .postfix _ _, out, e, o, hcf, h => by simp only [evalE, Prod.mk.injEq, Except.error.injEq] at h; rw [← h.1]; simp [NotOof]
+    | .call fn args, out, e, o, hcf, h => by simp [callFree] at hcf
+    | .assign _ _, out, e, o, hcf, h => by simp only [evalE, Prod.mk.injEq, Except.error.injEq] at h; rw [← h.1]; simp [NotOof]
+    | .ifE _ _ _, out, e, o, hcf, h => by simp only [evalE, Prod.mk.injEq, Except.error.injEq] at h; rw [← h.1]; simp [NotOof]
+    | .whileE _ _, out, e, o, hcf, h => by simp only [evalE, Prod.mk.injEq, Except.error.injEq] at h; rw [← h.1]; simp [NotOof]
+    | .foreachE _ _ _ _, out, e, o, hcf, h => by simp only [evalE, Prod.mk.injEq, Except.error.injEq] at h; rw [← h.1]; simp [NotOof]
+    | .switchE _ _, out, e, o, hcf, h => by simp only [evalE, Prod.mk.injEq, Except.error.injEq] at h; rw [← h.1]; simp [NotOof]
+    | .funcDef _ _ _, out, e, o, hcf, h => by simp only [evalE, Prod.mk.injEq, Except.error.injEq] at h; rw [← h.1]; simp [NotOof]
+    | .localE _, out, e, o, hcf, h => by simp only [evalE, Prod.mk.injEq, Except.error.injEq] at h; rw [← h.1]; simp [NotOof]
   theorem evalPs_noof (M : Machine) (obj : HostVal) (env : Env) : ∀ (ps : List Pair) (out : Str) (e : Err) (o : Str),
-      evalPs M obj env ps out = (.error e, o) → NotOof e
-    | [], out, e, o, h => by simp [evalPs] at h
-    | .mk k v :: ps, out, e, o, h => by
+      callFreePs ps = true → evalPs M obj env ps out = (.error e, o) → NotOof e
+    | [], out, e, o, hcf, h => by simp [evalPs] at h
+    | .mk k v :: ps, out, e, o, hcf, h => by
       simp only [evalPs] at h
       cases hk : evalE M obj env k out with
       | mk res o1 =>
         cases res with
-        | error y => simp only [hk, Prod.mk.injEq, Except.error.injEq] at h; rw [← h.1]; exact evalE_noof M obj env k out y o1 hk
+        | error y => simp only [hk, Prod.mk.injEq, Except.error.injEq] at h; rw [← h.1]; exact evalE_noof M obj env k out y o1 (by simp only [callFree, callFreeEs, callFreePs, Bool.and_eq_true] at hcf; simp [hcf]) hk
         | ok kv =>
           simp only [hk] at h
           cases hv : evalE M obj env v o1 with
           | mk res2 o2 =>
             cases res2 with
-            | error y => simp only [hv, Prod.mk.injEq, Except.error.injEq] at h; rw [← h.1]; exact evalE_noof M obj env v o1 y o2 hv
+            | error y => simp only [hv, Prod.mk.injEq, Except.error.injEq] at h; rw [← h.1]; exact evalE_noof M obj env v o1 y o2 (by simp only [callFree, callFreeEs, callFreePs, Bool.and_eq_true] at hcf; simp [hcf]) hv
             | ok vv =>
               simp only [hv] at h
               cases hr : evalPs M obj env ps o2 with
               | mk res3 o3 =>
                 cases res3 with
-                | error y => simp only [hr, Prod.mk.injEq, Except.error.injEq] at h; rw [← h.1]; exact evalPs_noof M obj env ps o2 y o3 hr
+                | error y => simp only [hr, Prod.mk.injEq, Except.error.injEq] at h; rw [← h.1]; exact evalPs_noof M obj env ps o2 y o3 (by simp only [callFree, callFreeEs, callFreePs, Bool.and_eq_true] at hcf; simp [hcf]) hr
                 | ok vs => simp [hr] at h
   theorem evalEs_noof (M : Machine) (obj : HostVal) (env : Env) : ∀ (xs : List Expr) (out : Str) (e : Err) (o : Str),
-      evalEs M obj env xs out = (.error e, o) → NotOof e
-    | [], out, e, o, h => by simp [evalEs] at h
-    | x :: xs, out, e, o, h => by
+      callFreeEs xs = true → evalEs M obj env xs out = (.error e, o) → NotOof e
+    | [], out, e, o, hcf, h => by simp [evalEs] at h
+    | x :: xs, out, e, o, hcf, h => by
       simp only [evalEs] at h
       cases hx : evalE M obj env x out with
       | mk res o1 =>
         cases res with
-        | error y => simp only [hx, Prod.mk.injEq, Except.error.injEq] at h; rw [← h.1]; exact evalE_noof M obj env x out y o1 hx
+        | error y => simp only [hx, Prod.mk.injEq, Except.error.injEq] at h; rw [← h.1]; exact evalE_noof M obj env x out y o1 (by simp only [callFree, callFreeEs, callFreePs, Bool.and_eq_true] at hcf; simp [hcf]) hx
         | ok v =>
           simp only [hx] at h
           cases hr : evalEs M obj env xs o1 with
           | mk res2 o2 =>
             cases res2 with
-            | error y => simp only [hr, Prod.mk.injEq, Except.error.injEq] at h; rw [← h.1]; exact evalEs_noof M obj env xs o1 y o2 hr
+            | error y => simp only [hr, Prod.mk.injEq, Except.error.injEq] at h; rw [← h.1]; exact evalEs_noof M obj env xs o1 y o2 (by simp only [callFree, callFreeEs, callFreePs, Bool.and_eq_true] at hcf; simp [hcf]) hr
             | ok vs => simp [hr] at h
 end
+
+/-- **An expression without calls always has a defined outcome**: the marker never appears, so the
+    hypothesis of the expression-correctness theorem holds for it -/
+theorem evalE_defined (M : Machine) (obj : HostVal) (env : Env) (e : Expr) (out : Str) (hcf : callFree e = true) :
+    (evalE M obj env e out).1 ≠ .error undefErr := by
+  intro hm
+  obtain ⟨o, hx⟩ := fst_err hm
+  exact evalE_noof M obj env e out _ o hcf hx rfl
+
 
 theorem resetVal_noof {v : Value} {e : Err} (h : resetVal v = .error e) : NotOof e := by
   unfold resetVal at h
@@ -238,7 +281,12 @@ theorem callWith_noof (deep : Bool) (run : List Stmt → Env → Str → Outcome
   cases hev : evalEs M obj env args out with
   | mk res o1 =>
     cases res with
-    | error x => simp only [hev, CallOut.failed.injEq] at h; rw [← h.1]; exact evalEs_noof M obj env args out x o1 hev
+    | error x =>
+      simp only [hev] at h
+      split at h
+      · cases h
+      · rename_i hne
+        simp only [CallOut.failed.injEq] at h; rw [← h.1]; exact hne
     | ok vs =>
       simp only [hev] at h
       cases hl : lookupFn M name with
@@ -301,13 +349,13 @@ theorem exec_noof (M : Machine) (F : FnTable) (obj : HostVal) : ∀ f, NoOofAt M
             cases hl : evalE M obj env (.ident name) out with
             | mk res o1 =>
               cases res with
-              | error y => simp only [hl, Outcome.failed.injEq] at h; rw [← h.1]; exact evalE_noof M obj env _ out y o1 hl
+              | error y => simp only [hl] at h; exact failE_noof h
               | ok lv =>
                 simp only [hl] at h
                 cases hr : evalE M obj env r o1 with
                 | mk res2 o2 =>
                   cases res2 with
-                  | error y => simp only [hr, Outcome.failed.injEq] at h; rw [← h.1]; exact evalE_noof M obj env r o1 y o2 hr
+                  | error y => simp only [hr] at h; exact failE_noof h
                   | ok rv =>
                     simp only [hr] at h
                     cases hb : binop M oo lv rv with
@@ -343,13 +391,13 @@ theorem exec_noof (M : Machine) (F : FnTable) (obj : HostVal) : ∀ f, NoOofAt M
         | mk res o1 =>
           cases res with
           | ok y => simp [hv] at h
-          | error y => simp only [hv, Outcome.failed.injEq] at h; rw [← h.1]; exact evalE_noof M obj env v out y o1 hv
+          | error y => simp only [hv] at h; exact failE_noof h
       all_goals simp only [execE] at h
       case ifE c cons alt =>
         cases hv : evalE M obj env c out with
         | mk res o1 =>
           cases res with
-          | error y => simp only [hv, Outcome.failed.injEq] at h; rw [← h.1]; exact evalE_noof M obj env c out y o1 hv
+          | error y => simp only [hv] at h; exact failE_noof h
           | ok cv =>
             simp only [hv] at h
             split at h
@@ -361,7 +409,7 @@ theorem exec_noof (M : Machine) (F : FnTable) (obj : HostVal) : ∀ f, NoOofAt M
         cases hv : evalE M obj env c out with
         | mk res o1 =>
           cases res with
-          | error y => simp only [hv, Outcome.failed.injEq] at h; rw [← h.1]; exact evalE_noof M obj env c out y o1 hv
+          | error y => simp only [hv] at h; exact failE_noof h
           | ok cv =>
             simp only [hv] at h
             split at h
@@ -375,7 +423,7 @@ theorem exec_noof (M : Machine) (F : FnTable) (obj : HostVal) : ∀ f, NoOofAt M
         cases hv : evalE M obj env v out with
         | mk res o1 =>
           cases res with
-          | error y => simp only [hv, Outcome.failed.injEq] at h; rw [← h.1]; exact evalE_noof M obj env v out y o1 hv
+          | error y => simp only [hv] at h; exact failE_noof h
           | ok iv =>
             simp only [hv] at h
             cases hr : resetVal iv with
@@ -406,7 +454,7 @@ theorem exec_noof (M : Machine) (F : FnTable) (obj : HostVal) : ∀ f, NoOofAt M
         | mk res o1 =>
           cases res with
           | ok y => simp [hv] at h
-          | error y => simp only [hv, Outcome.failed.injEq] at h; rw [← h.1]; exact evalE_noof M obj env x out y o1 hv
+          | error y => simp only [hv] at h; exact failE_noof h
     · intro depth ss env out e env' o h
       cases ss with
       | nil => simp [execSs] at h
@@ -455,13 +503,13 @@ theorem exec_noof (M : Machine) (F : FnTable) (obj : HostVal) : ∀ f, NoOofAt M
         cases hv : evalE M obj env v out with
         | mk res o1 =>
           cases res with
-          | error y => simp only [hv, ArmOut.done.injEq, Outcome.failed.injEq] at h; rw [← h.1]; exact evalE_noof M obj env v out y o1 hv
+          | error y => simp only [hv, ArmOut.done.injEq] at h; exact failE_noof h
           | ok vv =>
             simp only [hv] at h
             cases hx : evalE M obj env x o1 with
             | mk res2 o2 =>
               cases res2 with
-              | error y => simp only [hx, ArmOut.done.injEq, Outcome.failed.injEq] at h; rw [← h.1]; exact evalE_noof M obj env x o1 y o2 hx
+              | error y => simp only [hx, ArmOut.done.injEq] at h; exact failE_noof h
               | ok xv =>
                 simp only [hx] at h
                 cases hc : caseOp M vv xv with
